@@ -31,6 +31,7 @@ RULE = (
 )
 RULE += (" The corpus is converted with the stock test backend and with the verification backend (in-expressions, not-equals, correlation typing / fields / normalisation templates); it contains rule and correlation fields lists, a strict-mapping pipeline with several unmapped fields and a filter whose condition names an undefined detection.")
 RULE += (" Correlation group-by lists contain fields that a one-to-many mapping maps onto names already in the list.")
+RULE += (" One pipeline has items without explicit ids and a template that prints the (sorted) identifiers of the applied items.")
 ASSUMPTIONS = [
     "hash seeds, random seeds and process starts are sampled, not enumerated",
     "the two validators that fetch data over the network are left out",
@@ -52,6 +53,12 @@ PIPELINES = [
                                        {"type": "field_name_prefix", "prefix": "z."}]},
     # strict mapping: the error message lists the unmapped fields of a rule
     {"name": "p3", "transformations": [{"type": "field_name_mapping", "mapping": {"f": "mapped_f"}}, {"type": "strict_field_mapping_failure"}]},
+    # items without an explicit id and a template that prints which items were applied (sorted): generated identifiers
+    # are part of the output a user can ask for
+    {"name": "p4", "transformations": [{"type": "field_name_suffix", "suffix": "_q"}, {"type": "set_state", "key": "k", "val": "v"},
+                                        {"type": "replace_string", "regex": "^x", "replacement": "y"}],
+     "postprocessing": [{"type": "embed", "prefix": "(", "suffix": ")"},
+                        {"type": "template", "template": "{{ query }} ##applied={{ pipeline.applied_ids|sort|join(',') }} ##rule={{ rule.applied_processing_items|sort|join(',') }}"}]},
     # erroneous definitions: messages built from key sets
     {"name": "bad1", "transformations": [{"type": "field_name_suffix", "suffix": "_x",
                                           "rule_conditions": {"c1": {"type": "is_sigma_rule"}, "c2": {"type": "is_sigma_rule"}, "c3": {"type": "is_sigma_rule"}, "c4": {"type": "is_sigma_rule"}},
